@@ -12,7 +12,7 @@
 (***************************************************************************************)
 EXTENDS Load
 
-AsIsKinds == {"int", "float", "str", "bool", "None", "Any"}          \* "no conversion"
+AsIsKinds == {"int", "float", "str", "bool", "None", "Any", "object", "LiteralString"}          \* "no conversion"
 
 ScalarDump(k, v) == IF k \in AsIsKinds THEN v ELSE [c |-> "dump", f |-> k, a |-> v.a]
 
@@ -27,7 +27,7 @@ RECURSIVE CaseClass(_)
 CaseClass(T) == CASE T.k \in {"newtype", "annotated"} -> CaseClass(T.a[1])
                   [] T.k = "None" -> "NoneType"
                   [] T.k = "Path" -> "Path"
-                  [] T.k \in ScalarKinds \ {"Any"} -> ValuePyType[T.k]
+                  [] T.k \in ScalarKinds \ {"Any", "object"} -> ValuePyType[T.k]
                   [] T.k \in IterKinds -> IterImpl(T.k)
                   [] T.k \in DictKinds -> DictImpl(T.k)
                   [] T.k = "tuple_fix" -> "tuple"
